@@ -72,6 +72,14 @@ fn check_code(code: u16) -> Check {
             format!("tag({code}) = {tag:?}; from_tag({tag:?}) has code {} and tag {tag2:?}", back.code()),
         ));
     }
+    // a regional tag is carried by exactly one code: an unknown sublanguage
+    // must read as the bare language tag, not as some known variant
+    if tag != bare && tag != "und" && back.code() != code {
+        return Err(Fail::new(
+            format!("{P} regional-tag-on-other-code tag={tag}"),
+            format!("code {code} ({code:#06x}) has the regional tag {tag:?}, but that tag belongs to code {} ({:#06x}); an unknown sublanguage must give the bare tag {bare:?}", back.code(), back.code()),
+        ));
+    }
     // code -> tag -> code is stable from the second step on
     let again = Language::from_tag(&tag2);
     if again.code() != back.code() {
